@@ -29,18 +29,25 @@ def _corrupt(evs):
 
 def plans(tier):
     if tier == "quick":
-        return [("d1-random", 1, 1), ("d2-random", 1, 2), ("d3-random", 1, 60), ("sim-random-share", 1, 1), ("sim-random", 1, 2)]
-    return [("d1-random", 1, 1), ("d2-random", 1, 1), ("d3-random", 1, 4), ("sim-random-share", 1, 1), ("sim-random", 1, 1)]
+        return [("d1-random", 1, 1), ("d2-random", 1, 2), ("d3-random", 1, 60), ("sim-random-share", 1, 1), ("sim-random", 1, 2), ("d2-random-pair", 1, 1)]
+    return [("d1-random", 1, 1), ("d2-random", 1, 1), ("d3-random", 1, 4), ("sim-random-share", 1, 1), ("sim-random", 1, 1), ("d2-random-pair", 1, 1)]
 
 
 def run(chk):
     rd = tlc.new_rundir("C23")
     try:
         add_models(chk, ["RandomRealization:ok", "RandomRealization:redraw-mutant"])
-        progcheck.run_plans(chk, rd, plans(chk.tier), OBS, opts={"no_compute": True}, selftest=_corrupt)
+        def on_problem(case, clause):
+            # the replayer's own structural finding: a random base whose shape / chunks are not the requested ones (e.g.
+            # because constructing it returned another live array of the same name)
+            if clause == "shape" and "Random" in str(case.get("detail", "")):
+                chk.violation(case, "random-array-has-not-the-requested-layout")
+
+        progcheck.run_plans(chk, rd, plans(chk.tier), OBS, opts={"no_compute": True}, selftest=_corrupt, on_problem=on_problem)
         chk.cov["exhaustive"] = True
         chk.cov["rule"] = ("every behaviour of ArrayProgram.tla that starts with a Random action (2 generator kinds x 2 seeds x 5 distributions x "
-                           "2 shapes x lean chunk grids) followed by 0, 1 (every lean operation) or 2 operations, plus two fixed-seed TLC simulations of deep programs (6-7 actions, several "
+                           "2 shapes x lean chunk grids) followed by 0, 1 (every lean operation) or 2 operations, pairs of bases that differ only in "
+                           "their chunking (both alive), plus two fixed-seed TLC simulations of deep programs (6-7 actions, several "
                            "sources and random bases, elementwise / reductions sharing intermediates); one 'realization' observation "
                            "per program with 9-11 observations of the base and of the derived collection")
         chk.assumptions += ["values are compared after fixed-point quantization (1e-6), equality of realizations is otherwise exact",
